@@ -1,5 +1,5 @@
 import Lean
-import MgpuModel.Gen.AluScalar
+import MgpuProofs.C06Scalar
 import MgpuModel.C06
 /-! # C06 — scalar instructions and EXEC: from a table check to the translated handlers
 
@@ -25,9 +25,6 @@ open C03S
     SOP1 32..39 = `s_{and,or,xor,andn2,orn2,nand,nor,xnor}_saveexec_b64`, SOPP 8/9 = `s_cbranch_execz/nz` -/
 def documentedExec (fmt op : Nat) : Bool :=
   (fmt == 2 && 32 ≤ op && op ≤ 39) || (fmt == 4 && (op == 8 || op == 9))
-
-theorem exec_ite (c : Prop) [Decidable c] (a b : ScalarOut) :
-    (if c then a else b).exec = if c then a.exec else b.exec := by split <;> rfl
 
 open Lean Elab Tactic Meta in
 /-- unfold every generated scalar handler constant (`Gen.<arch>.run_*`) occurring in the goal -/
